@@ -1036,5 +1036,100 @@ def _suite_teardown(suite):
         suite.sb = None
 
 
-SUITES = [Traversal(), Ranges(), IfModifiedSince()]
+class FileHistory(Suite):
+    """One static route lives through a history of requests interleaved with changes of the file on disk (rewritten with
+    new bytes and a newer mtime, truncated, deleted, re-created): every response must reflect the file as it is at the
+    time of the request: 200 with the current bytes, 304 only when the validator sent is not older than the CURRENT mtime
+    (floor to seconds), 404 while the file does not exist; conditional requests carry the Last-Modified value echoed from
+    an earlier response of the same history."""
+
+    name = 'file_history'
+    budget = {'quick': 1500, 'thorough': 30000}
+
+    def setup(self):
+        _suite_setup(self)
+
+    def teardown(self):
+        _suite_teardown(self)
+
+    def strategy(self, tier):
+        op = st.one_of(
+            st.just(['get']), st.just(['get']), st.just(['get_ims_echo']), st.just(['get_ims_echo']),
+            st.tuples(st.just('rewrite'), st.integers(0, 40), st.sampled_from([1, 2, 60, 86400])).map(list),
+            st.just(['delete']), st.tuples(st.just('get_range'), st.integers(0, 5)).map(list),
+        )
+        return st.builds(lambda stack, ops: {'stack': stack, 'ops': ops}, st.sampled_from(RANGE_STACKS),
+                         st.lists(op, min_size=2, max_size=9))
+
+    def run(self, case):
+        sb = self.sb
+        stack = case['stack']
+        rel = 'hist/%s.bin' % stack
+        path = os.path.join(sb.root, rel)
+        os.makedirs(os.path.dirname(path), exist_ok=True)
+        app = make_app(sb, stack, None, False)
+        t = T0 + 1000
+        data = b'version-0:' + bytes(range(48, 58))
+        with open(path, 'wb') as fh:
+            fh.write(data)
+        os.utime(path, ns=(t * 10**9, t * 10**9))
+        exists = True
+        echoed = None  # (header value, mtime it stood for)
+        changed_after_echo = False
+        n = 0
+        try:
+            for op in case['ops']:
+                k = op[0]
+                if k == 'rewrite':
+                    n += 1
+                    t += op[2]
+                    data = (b'version-%d:' % n) + bytes(range(48, 48 + op[1] % 41))
+                    with open(path, 'wb') as fh:
+                        fh.write(data)
+                    os.utime(path, ns=(t * 10**9, t * 10**9))
+                    exists = True
+                    if echoed is not None:
+                        changed_after_echo = True
+                    continue
+                if k == 'delete':
+                    if exists:
+                        os.unlink(path)
+                    exists = False
+                    if echoed is not None:
+                        changed_after_echo = True
+                    continue
+                headers = []
+                if k == 'get_ims_echo' and echoed is not None:
+                    headers.append(('If-Modified-Since', echoed[0]))
+                if k == 'get_range':
+                    headers.append(('Range', 'bytes=%d-' % op[1]))
+                res, _events = request(app, stack, PREFIX + '/' + rel, headers=headers)
+                what = '%s history %r at %r (file %s, mtime %d, %d bytes)' % (stack, case['ops'], op, 'exists' if exists else 'deleted',
+                                                                            t, len(data))
+                if not exists:
+                    if res.code != 404:
+                        raise Violation('history_deleted_file_served', '%s: status %d body %s' % (what, res.code, brief(res.body)))
+                    continue
+                if k == 'get_ims_echo' and echoed is not None and echoed[1] >= t:
+                    want = (304, b'')
+                elif k == 'get_range' and op[1] < len(data):
+                    want = (206, data[op[1]:])
+                elif k == 'get_range' and len(data) > 0:
+                    want = (416, None)
+                else:
+                    want = (200, data)
+                if res.code != want[0] or (want[1] is not None and res.body != want[1]):
+                    raise Violation('history_stale_response', '%s: got %d %s, the file on disk now requires %d %s'
+                                    % (what, res.code, brief(res.body), want[0], brief(want[1] or b'')))
+                lm = res.header('last-modified')
+                if res.code in (200, 206) and lm:
+                    echoed = (lm, t)
+        finally:
+            if os.path.exists(path):
+                os.unlink(path)
+        return Info(changed_after_echo, [stack] + sorted(set('op:' + o[0] for o in case['ops']))
+                    + (['file_changed_after_validator_was_issued'] if changed_after_echo else []))
+
+
+SUITES = [Traversal(), Ranges(), IfModifiedSince(), FileHistory()]
 KNOWN = {}
